@@ -391,6 +391,11 @@ pub fn run_case(backend: &str, seed: u64, rep: &mut Report, thorough: bool, corr
     if let Err(e) = run_log_case(backend, seed, rep, thorough, corr, &base, account_id, ctx.default, &root) {
         rep.spec_fail("c13-harness-aborted", json!({"case_seed": seed, "backend": backend, "part": "log"}), &e.to_string());
     }
+    if backend == "fs" {
+        if let Err(e) = account_log_replace_case(seed, rep, &base, account_id, &root) {
+            rep.spec_fail("c13-harness-aborted", json!({"case_seed": seed, "backend": backend, "part": "account-log"}), &e.to_string());
+        }
+    }
     let _ = std::fs::remove_dir_all(&root);
     Ok(())
 }
@@ -446,6 +451,83 @@ async fn do_log_op(log: &mut FLog, op: &LogOp, new: &[EventRecord], rewind_to: &
     }
 }
 
+/// The ACCOUNT log file has a six-byte header (identity + encoding version; folder logs have four bytes).
+/// `replace_all_events` on it is abandoned at every blocking call; a log that opens afterwards must stay usable:
+/// one more event is appended and a fresh instance must read what was read before plus that event.
+pub fn account_log_replace_case(seed: u64, rep: &mut Report, base: &Path, account: AccountId, root: &Path) -> anyhow::Result<()> {
+    use sos_core::events::AccountEvent;
+    type ALog = sos_filesystem::FileSystemEventLog<AccountEvent, sos_backend::Error>;
+    async fn open_a(dir: &Path, account: AccountId) -> Result<ALog, String> {
+        let paths = Paths::new_client(dir).with_account_id(&account);
+        let mut log = ALog::new_account(paths.account_events(), account).await.map_err(|e| format!("open: {e}"))?;
+        log.load_tree().await.map_err(|e| format!("load_tree: {e}"))?;
+        Ok(log)
+    }
+    async fn commits_a(log: &ALog) -> Result<Vec<String>, String> {
+        use futures::StreamExt;
+        let stream = log.record_stream(false).await; futures::pin_mut!(stream);
+        let mut out = vec![];
+        while let Some(r) = stream.next().await { match r { Ok(r) => out.push(r.commit().to_string()), Err(e) => return Err(e.to_string()) } }
+        Ok(out)
+    }
+    async fn replace(log: &mut ALog, new: &[EventRecord]) -> Result<(), String> {
+        let mut t = CommitTree::new();
+        let mut hashes: Vec<[u8; 32]> = new.iter().map(|r| *r.commit().as_ref()).collect();
+        t.append(&mut hashes); t.commit();
+        let diff = Diff::<AccountEvent> { last_commit: None, patch: Patch::new(new.to_vec()), checkpoint: t.head().map_err(|e| e.to_string())? };
+        log.replace_all_events(&diff).await.map_err(|e| e.to_string())
+    }
+    let r = rt();
+    let (before, new) = r.block_on(async {
+        let probe = root.join("aprobe"); let _ = std::fs::remove_dir_all(&probe); copy_dir(base, &probe).map_err(|e| e.to_string())?;
+        let log = open_a(&probe, account).await?;
+        let before = commits_a(&log).await?;
+        let mut new = vec![];
+        for i in 0..2 { new.push(EventRecord::encode_event(&AccountEvent::RenameAccount(format!("crash-{seed}-{i}"))).await.map_err(|e| e.to_string())?); }
+        let _ = std::fs::remove_dir_all(&probe);
+        Ok::<_, String>((before, new))
+    }).map_err(|e| anyhow::anyhow!(e))?;
+    r.shutdown_timeout(std::time::Duration::from_secs(10));
+    let after: Vec<String> = new.iter().map(|r| r.commit().to_string()).collect();
+    // number of steps of the complete operation
+    let full = root.join("afull"); let _ = std::fs::remove_dir_all(&full); copy_dir(base, &full)?;
+    let r = rt();
+    let steps = r.block_on(async { let mut log = open_a(&full, account).await?; match run_budget(replace(&mut log, &new), usize::MAX).await { Ok((Ok(()), n)) => Ok(n), Ok((Err(e), _)) => Err(e), Err(_) => Err("budget".to_string()) } });
+    r.shutdown_timeout(std::time::Duration::from_secs(10));
+    let _ = std::fs::remove_dir_all(&full);
+    let steps = match steps { Ok(n) => n, Err(e) => { rep.spec_fail("c13-log-operation-failed:ReplaceAll:fs:account-log", json!({"case_seed": seed}), &e); return Ok(()); } };
+    rep.count(&format!("steps:ReplaceAll:fs:account-log={steps}"));
+    let mut seen = BTreeSet::new();
+    for k in 0..steps {
+        let trial = root.join("atrial"); let _ = std::fs::remove_dir_all(&trial); copy_dir(base, &trial)?;
+        let r = rt();
+        let _ = r.block_on(async { let mut log = open_a(&trial, account).await?; let res = run_budget(replace(&mut log, &new), k).await; drop(log); Ok::<bool, String>(res.is_ok()) });
+        r.shutdown_timeout(std::time::Duration::from_secs(10));
+        let paths = Paths::new_client(&trial).with_account_id(&account);
+        let bytes = std::fs::read(paths.account_events()).unwrap_or_default();
+        if !seen.insert(hcommon::sha256(&bytes)) { continue; }
+        rep.case(&format!("fs:account-log:ReplaceAll:step:{}", bytes.len()), true);
+        let r = rt();
+        let verdict = r.block_on(async {
+            let l = { let log = open_a(&trial, account).await?; commits_a(&log).await? };
+            let extra = EventRecord::encode_event(&AccountEvent::RenameAccount(format!("after-crash-{seed}"))).await.map_err(|e| e.to_string())?;
+            let c = extra.commit().to_string();
+            { let mut log = open_a(&trial, account).await?; log.apply_records(vec![extra]).await.map_err(|e| format!("append after recovery: {e}"))?; }
+            let log = open_a(&trial, account).await.map_err(|e| format!("re-open after an append: {e}"))?;
+            let now = commits_a(&log).await.map_err(|e| format!("read after an append: {e}"))?;
+            let mut want = l.clone(); want.push(c);
+            if now != want { return Err(format!("after an append the log holds {} records, expected {}", now.len(), want.len())); }
+            Ok::<Vec<String>, String>(l)
+        });
+        r.shutdown_timeout(std::time::Duration::from_secs(10));
+        match verdict {
+            Ok(l) => { rep.count(&format!("account-log:ReplaceAll:state:{}", if l == before { "before" } else if l == after { "after" } else if l.is_empty() { "emptied" } else { "other" })); }
+            Err(e) => rep.spec_fail(&format!("c13-log-unusable-after-crash:ReplaceAll:fs:account-log:file-of-{}-bytes", bytes.len().min(99)), json!({"case_seed": seed, "step": k, "of": steps, "file_length": bytes.len()}), &e),
+        }
+    }
+    Ok(())
+}
+
 pub fn run_log_case(backend: &str, seed: u64, rep: &mut Report, thorough: bool, corr: &mut Corr, base: &Path, account: AccountId, folder: VaultId, root: &Path) -> anyhow::Result<()> {
     let base_tree = tree(base);
     // before
@@ -487,6 +569,26 @@ pub fn run_log_case(backend: &str, seed: u64, rep: &mut Report, thorough: bool, 
             let got = r.block_on(async { let log = open_log(dir, backend, account, folder).await?; commits_of(&log).await });
             r.shutdown_timeout(std::time::Duration::from_secs(10));
             let ctx = json!({"case_seed": seed, "backend": backend, "op": opname, "crash": point});
+            // a log that opens after the crash must also stay usable: one more record is appended, and a fresh instance
+            // must then read what was read before plus that record
+            if let Ok(l) = &got {
+                let r = rt();
+                let again = r.block_on(async {
+                    let extra = EventRecord::encode_event(&WriteEvent::SetVaultName(format!("after-crash-{seed}"))).await.map_err(|e| e.to_string())?;
+                    let c = extra.commit().to_string();
+                    { let mut log = open_log(dir, backend, account, folder).await?; log.apply_records(vec![extra]).await.map_err(|e| format!("append after recovery: {e}"))?; }
+                    let log = open_log(dir, backend, account, folder).await.map_err(|e| format!("re-open after append: {e}"))?;
+                    let now = commits_of(&log).await.map_err(|e| format!("read after append: {e}"))?;
+                    let mut want = l.clone(); want.push(c);
+                    if now != want { return Err(format!("after an append the log holds {} records, expected {}", now.len(), want.len())); }
+                    Ok::<(), String>(())
+                });
+                r.shutdown_timeout(std::time::Duration::from_secs(10));
+                if let Err(e) = again {
+                    let shape = if l.is_empty() { "emptied" } else if l == &before { "before" } else if l == &expected_after { "after" } else { "other" };
+                    rep.spec_fail(&format!("c13-log-unusable-after-{how}:{opname}:{backend}:{shape}"), json!({"case": ctx, "records": l.len()}), &e);
+                }
+            }
             match got {
                 Err(e) => rep.spec_fail(&format!("c13-log-does-not-open-after-{how}:{opname}:{backend}"), ctx, &e),
                 Ok(l) => if l != before && l != expected_after {
